@@ -285,6 +285,71 @@ Proof.
   vm_compute in E. injection E as <-. vm_compute. reflexivity.
 Qed.
 
+(* ------------------------------------------------------------------ the entry is necessary *)
+Lemma length_zmul2 (a b : list Z) : List.length a = List.length b -> List.length (zmul2 a b) = List.length a.
+Proof.
+  revert b. induction a as [|x a IH]; intros [|y b] H; simpl in *; try discriminate; [reflexivity|].
+  f_equal. apply IH. now injection H.
+Qed.
+
+Lemma length_pad_left (d : nat) (l : list Z) : (List.length l <= d)%nat -> List.length (pad_left d l) = d.
+Proof. intros H. unfold pad_left. rewrite app_length, repeat_length. lia. Qed.
+
+Lemma length_np_tile (s reps : list Z) :
+  List.length (np_tile_shape s reps) = Nat.max (List.length s) (List.length reps).
+Proof.
+  unfold np_tile_shape. rewrite length_zmul2; rewrite !length_pad_left; auto using Nat.le_max_l, Nat.le_max_r.
+Qed.
+
+(* the rank entry (instance rank + 1) is NECESSARY: with any other entry for a keyword, a call that gives this keyword
+   once and n observers is not tiled to (n, instance shape) *)
+Lemma rank_entry_necessary (ed : string -> Z) (key : string) (s : shape) :
+  ed "observers"%string = 2 ->
+  Forall (fun d => 2 <= d) s ->
+  ed key <> ndim s + 1 ->
+  exists n, 2 <= n /\
+    dict_core ed [(key, item_in n (mkItem key s MSingle)); ("observers"%string, PArr [n; 3])]
+    <> DOk [(key, VArr (n :: s)); ("observers"%string, VArr [n; 3])].
+Proof.
+  intros Hobs Hs Hne.
+  set (n := match s with [] => 2 | d :: _ => d + 1 end).
+  assert (Hn : 2 <= n) by (subst n; destruct s as [|d s']; [lia|inversion Hs; lia]).
+  exists n. split; [exact Hn|].
+  unfold dict_core, item_in. simpl it_mode. simpl it_shape. cbv iota.
+  unfold phase1.
+  assert (Eobs : secure (PArr [n; 3]) = SOk false (VArr [n; 3])).
+  { simpl. replace (n <=? 0) with false by lia. reflexivity. }
+  rewrite Eobs. cbv iota beta. simpl v_ndim.
+  replace (ndim [n; 3] =? ed "observers"%string) with true by (rewrite Hobs; reflexivity).
+  simpl orb. cbv iota. simpl v_len. cbv iota beta.
+  replace (n =? 1) with false by lia. simpl andb. cbv iota. simpl negb. cbv iota.
+  destruct s as [|d s'].
+  - (* scalar parameter *)
+    simpl secure. cbv iota beta. simpl v_ndim.
+    destruct (ndim [] =? ed key) eqn:E.
+    + simpl. discriminate.
+    + simpl.
+      destruct (ndim [] <? ed key) eqn:E2.
+      * simpl. intros H. injection H as H _.
+        apply (f_equal (@List.length Z)) in H. rewrite length_np_tile in H. simpl in H.
+        rewrite repeat_length in H. unfold ndim in *. simpl in *. lia.
+      * simpl. intros H. discriminate.
+  - assert (Hd : 2 <= d) by (inversion Hs; assumption).
+    subst n. simpl secure. replace (d <=? 0) with false by lia. cbv iota beta. simpl v_ndim.
+    destruct (ndim (d :: s') =? ed key) eqn:E.
+    + simpl orb. cbv iota. simpl v_len. cbv iota beta.
+      replace (d =? 1) with false by lia. simpl andb. cbv iota. simpl negb. cbv iota.
+      simpl app. simpl map. unfold all_same. simpl forallb.
+      replace (d =? d + 1) with false by lia. simpl. discriminate.
+    + simpl orb. cbv iota beta. simpl andb. cbv iota. simpl app. simpl map. simpl all_same. simpl negb. cbv iota.
+      simpl vec_len_of.
+      destruct (ndim (d :: s') <? ed key) eqn:E2.
+      * simpl andb. cbv iota. intros H. injection H as H _.
+        apply (f_equal (@List.length Z)) in H. rewrite length_np_tile in H. simpl in H.
+        rewrite repeat_length in H. rewrite ndim_cons in *. unfold ndim in *. lia.
+      * simpl andb. cbv iota. intros H. injection H. intros. lia.
+Qed.
+
 (* ------------------------------------------------------------------ role inference *)
 Theorem role_inference : forall (self : mobj) (n_inputs : nat),
   (flat_sources self <> [] -> flat_sensors self <> [] ->
